@@ -232,11 +232,27 @@ func (v *prioView) allWritten() []int {
 }
 
 func (v *prioView) terminated() (int64, string) {
+	// the first of the control calls to return is the first announcement of termination
+	best, how := int64(-1), ""
+
+	consider := func(seq int64, what string) {
+		if seq >= 0 && (best < 0 || seq < best) {
+			best, how = seq, what
+		}
+	}
+
+	consider(v.stopRet, "Stop returned")
+	consider(v.gracefulRet, "GracefulStop returned")
+
+	if r, ok := hist(v.res.Hist).firstNote("stop2-returned"); ok {
+		consider(r.Seq, "a second, concurrent Stop returned")
+	}
+
+	if best >= 0 {
+		return best, how
+	}
+
 	switch {
-	case v.stopRet >= 0:
-		return v.stopRet, "Stop returned"
-	case v.gracefulRet >= 0:
-		return v.gracefulRet, "GracefulStop returned"
 	case v.outClosed >= 0:
 		return v.outClosed, "output closed"
 	case v.errClosed >= 0:
@@ -421,7 +437,21 @@ func checkExactlyOnce(vd *Verdict, v *prioView) {
 		return
 	}
 
-	want := v.allWritten()
+	// items another reader of a shared input channel took are not the discipline's
+	stolen := map[int]bool{}
+	for _, r := range hist(v.res.Hist).notes("stolen") {
+		stolen[int(r.Val)] = true
+		vd.fault("input-shared-with-another-reader")
+	}
+
+	var want []int
+
+	for _, it := range v.allWritten() {
+		if !stolen[it] {
+			want = append(want, it)
+		}
+	}
+
 	wantSet := map[int]bool{}
 
 	for _, it := range want {
@@ -450,6 +480,11 @@ func checkExactlyOnce(vd *Verdict, v *prioView) {
 	for _, d := range delivered {
 		seen[d.item]++
 
+		if stolen[d.item] {
+			vd.fail("delivered-twice", "item %d was delivered although another reader of the shared input channel had taken it", d.item)
+			return
+		}
+
 		if !wantSet[d.item] {
 			vd.fail("delivered-not-written", "item %d was delivered but never written to any input", d.item)
 			return
@@ -477,7 +512,14 @@ func checkExactlyOnce(vd *Verdict, v *prioView) {
 				}
 			}
 
-			w := v.written[i]
+			var w []int
+
+			for _, it := range v.written[i] {
+				if !stolen[it] {
+					w = append(w, it)
+				}
+			}
+
 			for k := range got {
 				if k >= len(w) || got[k] != w[k] {
 					vd.fail("order-per-priority", "priority %d: written %v, delivered in the order %v", in.Prio, w, got)
@@ -1105,25 +1147,42 @@ func checkPrioStop(vd *Verdict, v *prioView) {
 		}
 	}
 
+	// every Stop() that returns - the first caller's and an overlapping second one's - is
+	// entitled to the same guarantees
+	type stopReturn struct {
+		seq  int64
+		what string
+	}
+
+	var rets []stopReturn
+
 	if v.stopRet >= 0 {
+		rets = append(rets, stopReturn{v.stopRet, "Stop()"})
+	}
+
+	if r, ok := h.firstNote("stop2-returned"); ok {
+		rets = append(rets, stopReturn{r.Seq, "the second, overlapping Stop()"})
+	}
+
+	for _, sr := range rets {
 		for _, d := range v.sendOrd {
-			if v.sendSeq[d.item] > v.stopRet {
-				vd.failFacts("output-after-stop", facts, "item %d was written to the output after Stop() had returned", d.item)
+			if v.sendSeq[d.item] > sr.seq {
+				vd.failFacts("output-after-stop", facts, "item %d was written to the output after %s had returned", d.item, sr.what)
 				return
 			}
 		}
 
 		if !sc.plain() {
 			for it, g := range v.gotSeq {
-				if r, ok := v.relSeq[it]; g < v.stopRet && (!ok || r > v.stopRet) {
-					vd.failFacts("handle-running-after-stop", facts, "Handle(%d) was still running when Stop() returned", it)
+				if r, ok := v.relSeq[it]; g < sr.seq && (!ok || r > sr.seq) {
+					vd.failFacts("handle-running-after-stop", facts, "Handle(%d) was still running when %s returned", it, sr.what)
 					return
 				}
 			}
 
 			for it, g := range v.gotSeq {
-				if g > v.stopRet {
-					vd.failFacts("handle-called-after-stop", facts, "Handle(%d) was called after Stop() had returned", it)
+				if g > sr.seq {
+					vd.failFacts("handle-called-after-stop", facts, "Handle(%d) was called after %s had returned", it, sr.what)
 					return
 				}
 			}
